@@ -88,6 +88,8 @@ class FlowRule(TypingProtocol):
 
 
 # Flow validation constants
+IPV4_MAX_PREFIX: int = 32  # longest IPv4 prefix
+IPV6_MAX_PREFIX: int = 128  # longest IPv6 prefix
 MAX_PACKET_LENGTH: int = 0xFFFF  # Maximum packet length (16-bit value)
 MAX_DSCP_VALUE: int = 0x3F  # Maximum DSCP value (6 bits, 0b00111111)
 MAX_TRAFFIC_CLASS: int = 0xFFFF  # Maximum traffic class value (16-bit)
@@ -275,6 +277,8 @@ class IPrefix4(IPrefix, IComponent, FlowIPv4):
         Returns:
             New instance of cls with packed wire format
         """
+        if netmask < 0 or netmask > IPV4_MAX_PREFIX:
+            raise ValueError(f'invalid prefix length /{netmask} for an IPv4 flow prefix\n  Must be 0 to {IPV4_MAX_PREFIX}')
         packed = bytes([netmask]) + raw[: CIDR.size(netmask)]
         return cls(packed)
 
@@ -344,6 +348,10 @@ class IPrefix6(IPrefix, IComponent, FlowIPv6):
         Returns:
             New instance of cls with packed wire format
         """
+        if netmask < 0 or netmask > IPV6_MAX_PREFIX:
+            raise ValueError(f'invalid prefix length /{netmask} for an IPv6 flow prefix\n  Must be 0 to {IPV6_MAX_PREFIX}')
+        if offset < 0 or offset > netmask:
+            raise ValueError(f'invalid offset {offset} for an IPv6 flow prefix\n  Must be 0 to the prefix length')
         packed = bytes([netmask]) + raw[: CIDR.size(netmask)]
         return cls(packed, offset)
 
